@@ -158,7 +158,7 @@ CHECKS['C02'] = dict(
          'walk_tree driven as x12n_document drives it vs the model, per segment, on generated documents and structural mutants of every '
          'map) and by the property oracle: generated conformant documents through the real x12n_document must give True, an empty error '
          'tree and an accepting acknowledgement (per index entry: random documents, a two-group interchange, and interchanges holding two '
-         'groups of DIFFERENT maps - every pair of entries sharing GS08, both orders, plus sampled pairs). Element-level acceptance is C15 (admissible_no_error).',
+         'groups of DIFFERENT maps - every pair of entries sharing GS08, both orders, every 837 with service lines in front of every 835, plus sampled pairs). Element-level acceptance is C15 (admissible_no_error).',
     note=COMMON_NOTE + ' Random documents hold one interchange, group and set; multi-set, two-group and two-map interchanges are built beside them (more shapes under C05); conformance of element values is '
          'generated by harness/gendoc.py and checked end to end on the real code, the element-level theorem lives in C15.',
     technique='Lean 4 proof (walker accepts every conformant derivation; per-map hypotheses by kernel evaluation on translated maps) + walker differential + end-to-end oracle',
@@ -188,7 +188,7 @@ CHECKS['C05'] = dict(
          'tree refines a flat recount), doc_verdict_iff_no_report (verdict true iff every report is one the handler swallows - exactly finding '
          'D27, unrestricted form refuted on a witness), doc_ack_names_groups_and_sets, doc_ack_accepts_iff, doc_ack_totals (997). '
          'Tied to /repo by capturing the err_handler call sequence of the real validator on valid, faulty, multi-set, '
-         'multi-group and multi-interchange documents (4010 and 5010; set control numbers also over-long, blank-padded, one digit), replaying it through the model and comparing tree summary and '
+         'multi-group and multi-interchange documents (4010 and 5010; set control numbers also over-long, blank-padded, one digit; a faulty set repeated behind itself so that consecutive sets carry the same fault at the same place), replaying it through the model and comparing tree summary and '
          'acknowledgement segments; the property oracle recounts verdict, AK5/AK9 codes and totals, addressing and itemisation on the real outputs.',
     note=COMMON_NOTE + ' Timestamps and generated control numbers are masked; list(set()) order is compared as a multiset.',
     technique='Lean 4 proof (error tree + acknowledgement model) + event-sequence differential + recount oracle on the real acknowledgement',
